@@ -72,7 +72,11 @@ def quiet(f, *a, **k):
 # =========================================================================================== measurement seams
 
 def lap_unit(us=UNIT_U):
-    """the standard Laplace variate the library's sampler produces for these four uniforms (from the real code)"""
+    """the standard Laplace variate the library's own sampler function produces for these four uniforms (the real code's
+    `Laplace._laplace_sampler`; falls back to the unit-parameter run `Laplace(1, 0, 1).randomise(0)`)"""
+    f = getattr(M.Laplace, "_laplace_sampler", None)
+    if f is not None:
+        return float(quiet(f, *us))
     m = M.Laplace(epsilon=1.0, delta=0.0, sensitivity=1.0, random_state=seams.ScriptedSystemRandom(us))
     return -float(quiet(m.randomise, 0.0))
 
